@@ -185,7 +185,12 @@ def sig_match(pattern, sig):
 class Ctx:
     def __init__(self, pid, tier, module):
         self.pid = pid
-        self.tier = tier
+        # A module whose former thorough bound costs only seconds sets PROMOTE = True: its quick tier then runs that bound
+        # (ctx.tier == "thorough", ctx.deep False) and its thorough tier a deeper one (ctx.deep True).  tier_label is what
+        # was asked for on the command line and what the evidence reports.
+        self.tier_label = tier
+        self.deep = tier == "thorough"
+        self.tier = "thorough" if getattr(module, "PROMOTE", False) else tier
         self.module = module
         self.seed = int(os.environ.get("VERIF_SEED", "0") or 0)
         self.t0 = time.time()
@@ -269,7 +274,7 @@ class Ctx:
         wall = time.time() - self.t0
         ev = {
             "property_id": self.pid,
-            "tier": self.tier,
+            "tier": self.tier_label,
             "seed": self.seed,
             "level": "model_checking",
             "coverage": {
@@ -295,7 +300,7 @@ class Ctx:
         os.makedirs(edir, exist_ok=True)
         json.dump(ev, open(os.path.join(edir, self.pid + ".json"), "w"), indent=1)
         print("[%s] tier=%s states=%d transitions=%d executions=%d nontrivial=%d outcomes=%d exhaustive=%s wall=%.1fs violations=%d known=%d"
-              % (self.pid, self.tier, self.states, self.transitions, self.evaluations, self.nontrivial, len(self.outcomes),
+              % (self.pid, self.tier_label, self.states, self.transitions, self.evaluations, self.nontrivial, len(self.outcomes),
                  self.exhaustive, wall, len(self.new_violations), len(self.known_hits)), flush=True)
         return 1 if self.new_violations else 0
 
